@@ -5,6 +5,7 @@ import (
 	"go/constant"
 	"go/token"
 
+	"golang.org/x/tools/go/packages"
 	"golang.org/x/tools/go/ssa"
 )
 
@@ -100,6 +101,8 @@ func runDeclCheck(c *Ctx, r *Reporter) {
 	if sites == 0 {
 		r.Undecided("no scope.set call site found in pkg/parser")
 	}
+
+	scopeNameTests(p, pkg, r)
 
 	// --- clause validator
 	type test struct {
@@ -227,6 +230,103 @@ func runDeclCheck(c *Ctx, r *Reporter) {
 			r.Ok(construct, pos, "every return of true is dominated by the negative edge of "+t.text)
 		}
 	}
+}
+
+// scopeNameTests: the static scope stores and finds every name except the anonymous variable "_": every branch in
+// (*scope).set and (*scope).get tests the receiver for nil, the name for equality with the constant "_" (directly
+// or through a helper that is just this comparison), or the result of the map look-up. Any other test on the name
+// makes a class of identifiers invisible to the scope: declared but never stored, so redeclaration, unused-variable
+// and type checks silently stop applying to them while the evaluator still creates the variables.
+func scopeNameTests(p *Program, pkg *packages.Package, r *Reporter) {
+	for _, name := range []string{"(*scope).set", "(*scope).get"} {
+		fd := FindFunc(pkg, name)
+		if fd == nil {
+			r.Undecided("%s not found", name)
+			continue
+		}
+		sf := p.SSAFunc(fd.Obj)
+		if len(sf.Params) < 2 {
+			r.Undecided("%s: unexpected signature", name)
+			continue
+		}
+		var isAnonTest func(v ssa.Value, nameVal ssa.Value, depth int) bool
+		isAnonTest = func(v ssa.Value, nameVal ssa.Value, depth int) bool {
+			switch x := v.(type) {
+			case *ssa.UnOp:
+				if x.Op == token.NOT {
+					return isAnonTest(x.X, nameVal, depth)
+				}
+			case *ssa.BinOp:
+				if x.Op != token.EQL && x.Op != token.NEQ {
+					return false
+				}
+				a, b := x.X, x.Y
+				if _, ok := a.(*ssa.Const); ok {
+					a, b = b, a
+				}
+				k, ok := b.(*ssa.Const)
+				return ok && a == nameVal && k.Value != nil && k.Value.ExactString() == `"_"`
+			case *ssa.Call:
+				sc := x.Call.StaticCallee()
+				if depth == 0 || sc == nil || len(sc.Params) != 1 || len(x.Call.Args) != 1 || x.Call.Args[0] != nameVal || len(sc.Blocks) != 1 {
+					return false
+				}
+				rets := returnsOf(sc)
+				return len(rets) == 1 && len(rets[0].Results) == 1 && isAnonTest(rets[0].Results[0], sc.Params[0], depth-1)
+			}
+			return false
+		}
+		bad := ""
+		var badPos token.Pos
+		nTests := 0
+		for _, b := range sf.Blocks {
+			if len(b.Instrs) == 0 {
+				continue
+			}
+			ifi, ok := b.Instrs[len(b.Instrs)-1].(*ssa.If)
+			if !ok {
+				continue
+			}
+			cond := ifi.Cond
+			switch {
+			case isAnonTest(cond, sf.Params[1], 1):
+				nTests++
+			case isNilTestOf(cond, sf.Params[0]):
+			case isLookupOk(cond):
+			default:
+				bad = "`" + cond.String() + "`"
+				badPos = condPos(cond)
+			}
+		}
+		construct := fd.QName() + "#only-underscore-is-anonymous"
+		switch {
+		case bad != "":
+			r.Viol(construct, p.Rel(badPos), "the static scope decides on "+bad+", which is neither the nil test of the scope, nor the comparison of the name with \"_\", nor the result of the map look-up: "+
+				"names other than the anonymous variable become invisible to the scope (e.g. every identifier starting with an underscore), so redeclaration, unused-variable and type checks no longer apply to them")
+		case nTests == 0:
+			r.Viol(construct, p.Rel(fd.Decl.Pos()), "the static scope does not single out the anonymous variable \"_\"")
+		default:
+			r.Ok(construct, p.Rel(fd.Decl.Pos()), "the only name the scope treats specially is the constant \"_\"")
+		}
+	}
+}
+
+func isNilTestOf(cond ssa.Value, v ssa.Value) bool {
+	bo, ok := cond.(*ssa.BinOp)
+	if !ok || (bo.Op != token.EQL && bo.Op != token.NEQ) {
+		return false
+	}
+	k, ok := bo.Y.(*ssa.Const)
+	return ok && k.IsNil() && bo.X == v
+}
+
+func isLookupOk(cond ssa.Value) bool {
+	ex, ok := cond.(*ssa.Extract)
+	if !ok || ex.Index != 1 {
+		return false
+	}
+	lk, ok := ex.Tuple.(*ssa.Lookup)
+	return ok && lk.CommaOk
 }
 
 // declFromBuiltinsTable: the name comes from an element of the Globals table handed in through parser.Builtins
